@@ -141,7 +141,13 @@ func varNameOf(v *interp.Struct) string {
 }
 
 func nBasic(name string, info types.BasicInfo, kind types.BasicKind) ktype {
-	return &interp.Opaque{Kind: "types.Type", ID: name, GoType: "*go/types.Basic", Methods: mmap{"Kind": tmeth(int64(kind)), "Name": tmeth(interp.Lit(name)), "String": tmeth(interp.Lit(name)), "Info": tmeth(int64(info))}}
+	// what go/types itself says about the basic type: Name is the bare name, String the printed form
+	// (they differ for unsafe.Pointer: "Pointer" and "unsafe.Pointer")
+	str := name
+	if int(kind) < len(types.Typ) && types.Typ[kind] != nil {
+		name, str = types.Typ[kind].Name(), types.Typ[kind].String()
+	}
+	return &interp.Opaque{Kind: "types.Type", ID: str, GoType: "*go/types.Basic", Methods: mmap{"Kind": tmeth(int64(kind)), "Name": tmeth(interp.Lit(name)), "String": tmeth(interp.Lit(str)), "Info": tmeth(int64(info))}}
 }
 
 // namesTables runs the naming scenarios. required: the identifiers the generated method body must still
@@ -443,6 +449,9 @@ func namesTables(c *Ctx, required []string, exact bool, withDefaults bool) {
 		{"[]*MyType", kElem("*go/types.Slice", kElem("*go/types.Pointer", myT())), "myTypes"},
 		{"map[string]int", &interp.Opaque{Kind: "types.Type", ID: "m1", GoType: "*go/types.Map", Methods: mmap{"Key": tmeth(strT()), "Elem": tmeth(i())}}, "stringToInt"},
 		{"map[MyType][]string", &interp.Opaque{Kind: "types.Type", ID: "m2", GoType: "*go/types.Map", Methods: mmap{"Key": tmeth(myT()), "Elem": tmeth(kElem("*go/types.Slice", strT()))}}, "myTypeToStrings"},
+		{"[]unsafe.Pointer", kElem("*go/types.Slice", nBasic("Pointer", 0, types.UnsafePointer)), "pointers"},
+		{"map[string]unsafe.Pointer", &interp.Opaque{Kind: "types.Type", ID: "m3", GoType: "*go/types.Map", Methods: mmap{"Key": tmeth(strT()), "Elem": tmeth(nBasic("Pointer", 0, types.UnsafePointer))}}, "stringToPointer"},
+		{"chan unsafe.Pointer", kElem("*go/types.Chan", nBasic("Pointer", 0, types.UnsafePointer)), "pointerCh"},
 		{"chan int", kElem("*go/types.Chan", i()), "intCh"},
 		{"chan *MyType", kElem("*go/types.Chan", kElem("*go/types.Pointer", myT())), "myTypeCh"},
 		{"*MyType", kElem("*go/types.Pointer", myT()), "myType"},
@@ -472,10 +481,16 @@ func namesTables(c *Ctx, required []string, exact bool, withDefaults bool) {
 			if unnamed == "_" {
 				key += " (written _)"
 			}
-			run.Check("G-NAMING/table", key, pos, got == tc.want, fmt.Sprintf("an unnamed parameter (written %q) of type %s is named %q, the documented rule gives %q", unnamed, tc.desc, got, tc.want))
+			if !c.namingIdentOnly {
+				run.Check("G-NAMING/table", key, pos, got == tc.want, fmt.Sprintf("an unnamed parameter (written %q) of type %s is named %q, the documented rule gives %q", unnamed, tc.desc, got, tc.want))
+			}
+			run.Check("G-NAMING/identifier", key, pos, token.IsIdentifier(got), fmt.Sprintf("an unnamed parameter (written %q) of type %s is named %q, which is not a Go identifier: the generated file does not parse", unnamed, tc.desc, got))
 		}
 	}
-	run.Floor("G-NAMING/table", 20)
+	if !c.namingIdentOnly {
+		run.Floor("G-NAMING/table", 20)
+	}
+	run.Floor("G-NAMING/identifier", 20)
 }
 
 // eqLiteral recognises the term of `tok == "lit"` in either operand order.
